@@ -1742,6 +1742,11 @@ impl VirtualFileSystem for Memfs {
             let src_entry = if let Some(mut dst_entry) = guard.remove_entry(&src_path) {
                 let src_entry = dst_entry.clone();
                 dst_entry.path.clone_from(&dst_path);
+
+                // A moved link keeps its absolute target so its relative target has to follow
+                if dst_entry.link {
+                    dst_entry.rel = dst_entry.alt.relative(dst_path.dir()?)?;
+                }
                 guard.insert_entry(dst_path.clone(), dst_entry);
                 src_entry
             } else {
